@@ -4,7 +4,8 @@ from vcore import gen_and_replay, record_and_validate, finish, replay_one
 RULE = ("E1: SemverVocab - preorder laws of the specification's Cmp on a version vocabulary (all pairs, triples on a "
         "sub-vocabulary). E2: (a) every string over a 10-letter alphabet up to length L with validity and all accessors, "
         "(b) one string per (grammatical position x next token) transition, (c) vocabulary with ranks, Compare checked on all "
-        "pairs by the harness. E3: random/mutated versions, pairs and sorts recorded from the real code and re-evaluated by "
+        "pairs by the harness, (d) module.Sort, which orders by Compare (specification ModuleSort: strict partial order laws; every list of up "
+        "to 2/3 distinct (path, version[/file]) records over 36 records with its sorted form where the order is total on the list). E3: random/mutated versions, pairs and sorts recorded from the real code and re-evaluated by "
         "SemverTrace. Non-trivial = valid version.")
 
 
@@ -19,6 +20,8 @@ def run(ctx):
                    floor=800, workers=16, timeout=3000)
     # E2b: transition cover with long tokens
     gen_and_replay(ctx, "semver", "SemverGen", "SemverGen_tokens", floor=2000, workers=8, timeout=1200)
+    # growth: module.Sort (specification ModuleSort) - every list of up to 2/3 distinct (path, version[/file]) records
+    gen_and_replay(ctx, "semver", "ModuleSort", "ModuleSort_2" if q else "ModuleSort_3", floor=500, workers=16, timeout=3000)
     # E3
     record_and_validate(ctx, "semver", "SemverTrace", "SemverTrace", 8000 if q else 100000, shards=12)
     ctx.exhaustive = False
